@@ -5,6 +5,7 @@
 import TaRs.Lemmas.Core.Maximum
 import TaRs.Gen.Maximum
 import TaRs.Lemmas.RsLemmas
+import TaRs.Lemmas.Total.Maximum
 namespace TaRs.Gen.Maximum
 open TaRs TaRs.Rs
 
@@ -44,9 +45,6 @@ theorem scan_lt (d : Array F) (h : 0 < d.size) : scan d < d.size := by
     simpa using this
   · exact h
 
-theorem find_max_index_lt (s : Maximum F) (h : 0 < s.deque.size) :
-    s.find_max_index < s.deque.size := scan_lt s.deque h
-
 /-- Normal form of one `next` on a well-formed state: which branch is taken as a function of the
     comparison with the cached slot `v` (read AFTER the write at the cursor).  This is the ONLY
     fact about `next` proved by executing the generated body; it does so with `rs_exec`, which
@@ -78,18 +76,6 @@ theorem next_eq (s : Maximum F) (x v : F) (h : WF s)
   rs_exec
   all_goals (first | omega | contradiction | exact ⟨_, rfl, Array.getElem?_eq_getElem _⟩)
 
-/-- `next` never panics on a well-formed state, keeps it well-formed and keeps the period -/
-theorem next_total (s : Maximum F) (x : F) (h : WF s) :
-    ∃ r, s.next x = some r ∧ WF r.1 ∧ r.1.period = s.period := by
-  have hi : s.max_index < (s.deque.setIfInBounds s.cur_index x).size := by
-    have := h.size; have := h.mx; simp only [Array.size_setIfInBounds]; omega
-  obtain ⟨o, e, _⟩ := next_eq s x _ h (Array.getElem?_eq_getElem hi)
-  refine ⟨_, e, ?_, rfl⟩
-  obtain ⟨hp, hs, hsz, hc, hmx⟩ := h
-  have hf := scan_lt (s.deque.setIfInBounds s.cur_index x) (by omega)
-  simp only [Array.size_setIfInBounds] at hf
-  constructor <;> simp only [Array.size_setIfInBounds] <;> (repeat' split) <;> omega
-
 /-- shape of the step: the input is written at the cursor, the cursor advances cyclically, the
     new `max_index` is the cursor, the rescan result, or unchanged, and the output is the buffer
     entry at the new `max_index` -/
@@ -110,14 +96,5 @@ theorem next_shape (s : Maximum F) (x : F) (h : WF s) :
   · split
     · exact Or.inr (Or.inr ⟨‹_›, rfl⟩)
     · exact Or.inr (Or.inl rfl)
-
-theorem nextBar_eq (s : Maximum F) (b : Bar F) : s.nextBar b = s.next b.high := by
-  unfold nextBar
-  try simp only [gen_helper]
-  cases s.next b.high <;> rfl
-
-theorem nextBar_total (s : Maximum F) (b : Bar F) (h : WF s) :
-    ∃ r, s.nextBar b = some r ∧ WF r.1 ∧ r.1.period = s.period := by
-  rw [nextBar_eq]; exact next_total s b.high h
 
 end TaRs.Gen.Maximum
